@@ -146,7 +146,7 @@ class ParametricTransform:
         shape = (arg.shape[0],) + shape
         if arg.shape != shape:
             raise ValueError(f"{type(self).__name__}.data() 'arg' must have shape {shape!r}")
-        copy = shallow_copy(self)
+        copy = self._copy_with_own_parameters()
         if callable(params):
             delattr(copy, "p")
         if isinstance(params, Parameter) and not isinstance(arg, Parameter):
@@ -262,6 +262,11 @@ class ParametricTransform:
             raise TypeError(
                 f"{type(self).__name__}.link() 'other' must be of the same type, got {type(other).__name__}"
             )
+        if "params" in self._parameters:
+            # Release parameter name such that a module can be assigned to it, without
+            # modifying the container of parameters shared with other shallow copies
+            self._parameters = self._parameters.copy()
+            del self._parameters["params"]
         self.params = other
         if not hasattr(self, "p"):
             if other.params is None:
@@ -275,7 +280,7 @@ class ParametricTransform:
 
     def unlink(self: Union[TSpatialTransform, ParametricTransform]) -> TSpatialTransform:
         r"""Make a shallow copy of this transformation with parameters set to ``None``."""
-        return shallow_copy(self).unlink_()
+        return self._copy_with_own_parameters().unlink_()
 
     def unlink_(self: Union[TSpatialTransform, ParametricTransform]) -> TSpatialTransform:
         r"""Resets transformation parameters to ``None``."""
